@@ -7,6 +7,9 @@
 //   inverse  math::inverse on static_matrix<double,N,N> (all small integer matrices, random ones,
 //            matrices that need row exchanges) and detail::inverse on complex arrays
 //   sm       static_matrix arithmetic on integer blocks
+//   reuse    call histories on ONE object: QR (factorize / compute / solve of changing shapes, orders), skyline_lu
+//            (operator() with unit / zero / leading-zero / random right-hand sides), detail::inverse with reused
+//            work buffers; every call compared bitwise with a fresh object and with the definition
 //   qr       detail::QR<double | complex | static_matrix>: factorize / Q / R / solve, both storage
 //            orders, shapes to 12x12, rank deficient / zero columns (class-O observations)
 // Verdicts are taken by TLC (spec/C16Trace.tla).
@@ -432,6 +435,156 @@ static void mode_qr(uint64_t seed, bool th) {
     }
 }
 
+// ---------------------------------------------------------------- call histories on ONE object (mode reuse)
+// The library reuses its kernels: one QR object per thread over all aggregates, one skyline_lu for every coarse
+// solve, work buffers of detail::inverse.  Every call of a history is compared bitwise with the same call on a
+// fresh object (a call must overwrite whatever scratch it reads) and with the definition.
+template <class T> struct qr_result { std::vector<T> out; };     // Q then R (factorize), R (compute), x (solve)
+template <class T> static bool same_bits(const std::vector<T> &a, const std::vector<T> &b) { return a.size() == b.size() && (a.empty() || std::memcmp(a.data(), b.data(), sizeof(T) * a.size()) == 0); }
+// op: 0 factorize (+Q, R), 2 solve, 3 compute then solve(computed = true) (tall / square only); (1 = compute + R is not
+// a valid use: the accessors take their strides from factorize())
+template <class T> static std::vector<T> qr_call(amgcl::detail::QR<T> &qr, int op, int rows, int cols, int order, std::vector<T> W, const std::vector<T> &b) {
+    auto so = order == 0 ? amgcl::detail::row_major : amgcl::detail::col_major;
+    std::vector<T> out; const int k = std::min(rows, cols);
+    if (op == 0) { qr.factorize(rows, cols, W.data(), so); for (int i = 0; i < rows; ++i) for (int j = 0; j < cols; ++j) out.push_back(qr.Q(i, j)); for (int i = 0; i < k; ++i) for (int j = 0; j < cols; ++j) out.push_back(qr.R(i, j)); }
+    else if (op == 1) { qr.compute(rows, cols, W.data(), so); for (int i = 0; i < k; ++i) for (int j = 0; j < cols; ++j) out.push_back(qr.R(i, j)); }
+    else { std::vector<T> x(cols, T(0)); if (op == 3) qr.compute(rows, cols, W.data(), so); qr.solve(rows, cols, W.data(), b.data(), x.data(), so, op == 3); out = x; }
+    return out;
+}
+template <class T> static void qr_history(vr::rng &g, int steps, int smax) {
+    amgcl::detail::QR<T> reused;
+    int prows = 0, pcols = 0, pop = -1;
+    for (int st = 0; st < steps; ++st) {
+        int rows, cols;
+        switch (st % 6) {                                  // larger then smaller, smaller then larger, tall then wide, ...
+            case 0: rows = g.range(3, smax); cols = g.range(2, rows); break;                 // tall / square, >= 2 columns
+            case 1: rows = g.range(2, std::max(2, prows - 1)); cols = g.range(2, std::max(2, std::min(rows, pcols))); break;   // smaller
+            case 2: rows = g.range(2, smax); cols = g.range(rows, smax); break;              // wide / square
+            case 3: rows = smax - g.below(2); cols = smax - g.below(3); break;               // large
+            case 4: rows = g.range(1, 3); cols = g.range(1, 3); break;                       // tiny
+            default: rows = g.range(2, smax); cols = g.range(2, smax); break;
+        }
+        int order = g.below(2), op = g.below(4); if (op == 1) op = 0; if (op == 3 && rows < cols) op = 2;   // R() / Q() are defined after factorize() only
+        std::vector<T> A((size_t)rows * cols), b(rows);
+        auto at = [&](int i, int j) -> T& { return order == 0 ? A[(size_t)i * cols + j] : A[(size_t)i + (size_t)j * rows]; };
+        for (auto &v : A) v = qrt<T>::mk(g); for (auto &v : b) v = qrt<T>::mk(g);
+        dmat D(rows, cols); for (int i = 0; i < rows; ++i) for (int j = 0; j < cols; ++j) D(i, j) = qrt<T>::up(at(i, j));
+        const int k = std::min(rows, cols);
+        amgcl::detail::QR<T> fresh;
+        std::vector<T> got = qr_call<T>(reused, op, rows, cols, order, A, b), want = qr_call<T>(fresh, op, rows, cols, order, A, b);
+        vr::obj o; o.str("k", "qrreuse").str("vt", qrt<T>::name()).i("step", st).i("op", op).i("rows", rows).i("cols", cols).i("order", order)
+                    .i("prows", prows).i("pcols", pcols).i("pop", pop).b("fresh", same_bits(got, want));
+        ld e_fact = 0, e_orth = 0, e_opt = 0, e_x = 0; bool lowzero = true, qtail = true; int solved = 0;
+        if (op <= 1) {
+            size_t base = op == 0 ? (size_t)rows * cols : 0;
+            dmat R(k, cols); for (int i = 0; i < k; ++i) for (int j = 0; j < cols; ++j) { R(i, j) = qrt<T>::up(got[base + (size_t)i * cols + j]); if (j < i && !(got[base + (size_t)i * cols + j] == T(0))) lowzero = false; }
+            if (op == 0) {
+                dmat Q(rows, k); for (int i = 0; i < rows; ++i) for (int j = 0; j < cols; ++j) { if (j < k) Q(i, j) = qrt<T>::up(got[(size_t)i * cols + j]); else if (!(got[(size_t)i * cols + j] == T(0))) qtail = false; }
+                e_fact = vd::max_abs(vd::subm(vd::mul(Q, R), D)) / std::max((ld)1e-300L, vd::max_abs(D));
+                e_orth = vd::max_abs(vd::subm(vd::mul(vd::adjoint(Q), Q), vd::ident(k)));
+            } else {
+                // R alone: R^H R = A^H A (leading k columns / the Gram matrix of A), scale ||A||_F^2
+                dmat G1 = vd::mul(vd::adjoint(R), R), G2 = vd::mul(vd::adjoint(D), D);
+                e_fact = vd::max_abs(vd::subm(G1, G2)) / std::max((ld)1e-300L, vd::fro(D) * vd::fro(D));
+            }
+        } else {
+            ld cnd = cond2(D);
+            if (cnd < 1e6L) {
+                solved = 1; dvec bd(rows), xd(cols); for (int i = 0; i < rows; ++i) bd[i] = qrt<T>::up(b[i]); for (int j = 0; j < cols; ++j) xd[j] = qrt<T>::up(got[j]);
+                dvec ref = eigen_lsq(D, bd), rr = vd::sub(vd::mul(D, xd), bd); ld fa = vd::fro(D);
+                e_opt = rows >= cols ? vd::nrm2(vd::mul(vd::adjoint(D), rr)) / std::max((ld)1e-300L, fa * (fa * vd::nrm2(xd) + vd::nrm2(bd))) : vd::nrm2(rr) / std::max((ld)1e-300L, fa * vd::nrm2(xd) + vd::nrm2(bd));
+                e_x = vd::nrm2(vd::sub(xd, ref)) / std::max((ld)1e-300L, cnd * std::max(vd::nrm2(ref), (ld)1e-30L));
+                if (!vd::all_finite(xd)) e_opt = e_x = 1e30L;
+            }
+        }
+        o.i("e_fact", md(e_fact)).i("e_orth", md(e_orth)).b("lowzero", lowzero).b("qtail", qtail).i("solved", solved).i("e_opt", md(e_opt)).i("e_x", md(e_x));
+        put(o);
+        prows = rows; pcols = cols; pop = op;
+    }
+}
+// the static_matrix specialisation keeps a scalar QR (base) and a scalar buffer: factorize histories on one object
+template <int N> static void qr_block_history(vr::rng &g, int steps) {
+    typedef static_matrix<double, N, N> V;
+    amgcl::detail::QR<V> reused; int prows = 0, pcols = 0;
+    for (int st = 0; st < steps; ++st) {
+        int rows = g.range(1, 4), cols = g.range(1, 4), order = g.below(2);
+        if (st % 3 == 0) { rows = 4; cols = g.range(2, 4); } if (st % 3 == 1) { rows = g.range(2, 3); cols = 2; }
+        std::vector<V> A((size_t)rows * cols); for (auto &v : A) for (int k = 0; k < N * N; ++k) v(k) = g.range(-4, 4) + g.unit();
+        auto at = [&](int i, int j) -> V& { return order == 0 ? A[(size_t)i * cols + j] : A[(size_t)i + (size_t)j * rows]; };
+        dmat D(rows * N, cols * N); for (int i = 0; i < rows; ++i) for (int j = 0; j < cols; ++j) for (int r = 0; r < N; ++r) for (int c = 0; c < N; ++c) D(i * N + r, j * N + c) = at(i, j)(r, c);
+        const int k = std::min(rows, cols) * N;
+        auto call = [&](amgcl::detail::QR<V> &qr) { std::vector<V> W(A); qr.factorize(rows, cols, W.data(), order == 0 ? amgcl::detail::row_major : amgcl::detail::col_major);
+            std::vector<double> out; for (int i = 0; i < rows; ++i) for (int j = 0; j < cols; ++j) { V q = qr.Q(i, j); out.insert(out.end(), q.buf.begin(), q.buf.end()); }
+            for (int i = 0; i < std::min(rows, cols); ++i) for (int j = 0; j < cols; ++j) { V r = qr.R(i, j); out.insert(out.end(), r.buf.begin(), r.buf.end()); } return out; };
+        amgcl::detail::QR<V> fresh; std::vector<double> got = call(reused), want = call(fresh);
+        dmat Q(rows * N, k), R(k, cols * N); size_t pos = 0;
+        for (int i = 0; i < rows; ++i) for (int j = 0; j < cols; ++j) for (int r = 0; r < N; ++r) for (int c = 0; c < N; ++c, ++pos) if (j * N + c < k) Q(i * N + r, j * N + c) = got[pos];
+        for (int i = 0; i < std::min(rows, cols); ++i) for (int j = 0; j < cols; ++j) for (int r = 0; r < N; ++r) for (int c = 0; c < N; ++c, ++pos) R(i * N + r, j * N + c) = got[pos];
+        vr::obj o; o.str("k", "qrreuse").str("vt", N == 2 ? "block2" : "block3").i("step", st).i("op", 0).i("rows", rows * N).i("cols", cols * N).i("order", order)
+                    .i("prows", prows).i("pcols", pcols).i("pop", st ? 0 : -1).b("fresh", same_bits(got, want));
+        o.i("e_fact", md(vd::max_abs(vd::subm(vd::mul(Q, R), D)) / vd::max_abs(D))).i("e_orth", md(vd::max_abs(vd::subm(vd::mul(vd::adjoint(Q), Q), vd::ident(k)))))
+         .b("lowzero", true).b("qtail", true).i("solved", 0).i("e_opt", -30000).i("e_x", -30000);
+        put(o); prows = rows * N; pcols = cols * N;
+    }
+}
+// skyline_lu: one factorisation, operator() with a sequence of right-hand sides (the work vector y is a mutable member)
+template <class V> static void sky_history(vr::rng &g, const backend::crs<V, ptrdiff_t, ptrdiff_t> &A, int steps) {
+    typedef typename vd::vt<V>::rhs rhs; const int B = vd::vt<V>::B; const size_t n = A.nrows;
+    solver::skyline_lu<V> reused(A);
+    dmat D = vd::dense_of(A);
+    const char *names[6] = {"rand", "unit", "zero", "leadzero", "unitlast", "big"};
+    for (int st = 0; st < steps; ++st) {
+        int kind = st % 6; dvec fd(n * B, cld(0, 0));
+        if (kind == 0) for (auto &z : fd) z = cld(g.range(-3, 3), 0);
+        if (kind == 1) fd[g.below((int)(n * B))] = 1;
+        if (kind == 3) for (size_t i = n * B / 2; i < n * B; ++i) fd[i] = cld(g.range(1, 3), 0);
+        if (kind == 4) fd[n * B - 1] = 1;
+        if (kind == 5) for (auto &z : fd) z = cld(g.range(-3, 3) * 1024.0, 0);
+        std::vector<rhs> f(n), x(n), xf(n);
+        for (size_t i = 0; i < n; ++i) for (int r = 0; r < B; ++r) { vd::vt<V>::rset(f[i], r, fd[i * B + r]); vd::vt<V>::rset(x[i], r, cld(-9, 0)); vd::vt<V>::rset(xf[i], r, cld(5, 0)); }
+        reused(f, x);
+        solver::skyline_lu<V> fresh(A); fresh(f, xf);
+        bool same = std::memcmp(x.data(), xf.data(), sizeof(rhs) * n) == 0;
+        dvec xd = vd::dense_vec<V>(x, n); bool ok; dvec ref = vd::solve(D, fd, ok);
+        bool exactzero = true; if (kind == 2) for (auto &z : xd) if (!(z == cld(0, 0))) exactzero = false;
+        vr::obj o; o.str("k", "skyreuse").str("vtag", vd::vt<V>::name()).i("n", n).i("step", st).str("rhs", names[kind]).b("fresh", same).b("finite", vd::all_finite(xd))
+                    .b("zero_in_zero_out", exactzero).i("err", md(vd::rel_diff(xd, ref)));
+        put(o);
+    }
+}
+// detail::inverse with one pair of work buffers (t, p) reused for matrices of changing size
+template <class T> static void inv_history(vr::rng &g, int steps) {
+    std::vector<T> t(64, qrt<T>::mk(g)); std::vector<int> p(8, 7);
+    for (int st = 0; st < steps; ++st) {
+        int n = (st % 4 == 0) ? g.range(5, 8) : (st % 4 == 1) ? g.range(1, 3) : g.range(2, 6);
+        std::vector<T> A((size_t)n * n); for (auto &v : A) v = T(g.range(-3, 3)) + qrt<T>::mk(g) * T(0.125); if (g.coin(0.4)) A[0] = T(0);
+        dmat D(n, n); for (int i = 0; i < n; ++i) for (int j = 0; j < n; ++j) D(i, j) = qrt<T>::up(A[i * n + j]);
+        bool ok; dmat Rf = vd::inverse(D, ok); if (!ok || vd::max_abs(Rf) > 1e4) continue;
+        std::vector<T> A1(A), A2(A), t2((size_t)n * n); std::vector<int> p2(n);
+        amgcl::detail::inverse(n, A1.data(), t.data(), p.data());
+        amgcl::detail::inverse(n, A2.data(), t2.data(), p2.data());
+        dmat Di(n, n); for (int i = 0; i < n; ++i) for (int j = 0; j < n; ++j) Di(i, j) = qrt<T>::up(A1[i * n + j]);
+        ld e1 = vd::max_abs(vd::subm(vd::mul(D, Di), vd::ident(n))), e2 = vd::max_abs(vd::subm(vd::mul(Di, D), vd::ident(n)));
+        vr::obj o; o.str("k", "invreuse").str("vt", qrt<T>::name()).i("n", n).i("step", st).b("fresh", same_bits(A1, A2)).b("finite", vd::all_finite(Di))
+                    .i("eres", md(std::max(e1, e2) / std::max((ld)1, vd::max_abs(Di) * vd::max_abs(D))));
+        put(o);
+    }
+}
+static void mode_reuse(uint64_t seed, bool th) {
+    vr::rng g(seed + 1688); int rounds = th ? 12 : 3;
+    for (int r = 0; r < rounds; ++r) {
+        qr_history<double>(g, 24, 6 + r % 3 * 3); qr_history<std::complex<double>>(g, 24, 6 + r % 3 * 3);
+        qr_block_history<2>(g, 9); qr_block_history<3>(g, 6);
+        for (int kind = 0; kind < 5; ++kind) {
+            int n = g.range(2, th ? 40 : 20); auto S = random_skeleton(g, n, kind);
+            sky_history<double>(g, *S, 12);
+            { auto C = vd::typed<std::complex<double>>(*S, g, true); sky_history<std::complex<double>>(g, *C, 6); }
+            if (n <= 14) { auto Bm = vd::typed<static_matrix<double,2,2>>(*S, g, true); sky_history<static_matrix<double,2,2>>(g, *Bm, 6); }
+        }
+        inv_history<double>(g, 24); inv_history<std::complex<double>>(g, 24);
+    }
+}
+
 int main(int argc, char **argv) {
     vr::install_terminate();
     std::string mode = argc > 1 ? argv[1] : "small";
@@ -441,6 +594,7 @@ int main(int argc, char **argv) {
     else if (mode == "inverse") mode_inverse(seed, th);
     else if (mode == "sm") mode_sm(seed, th);
     else if (mode == "qr") mode_qr(seed, th);
+    else if (mode == "reuse") mode_reuse(seed, th);
     vr::obj o; o.str("e", "End"); vr::emit(o.done());
     return 0;
 }
